@@ -117,6 +117,7 @@ class Gen:
 
     # -- entry points ----------------------------------------------------------
     def _run(self, fname, *args, **kwargs):
+        self.it.steps = 0  # the step budget is per generator invocation
         try:
             return self.tr.get(fname)(*args, **kwargs)
         except PRaise as exc:
